@@ -12,7 +12,7 @@ from ..poly import Poly, parr, z3mod
 from ..tv import Compiled, viol_terms, affine_in_z, discharge_row
 from ..util import quiet
 from ..oracle import Z3Env, cons_eval
-from ..rogen import core_specs, expset_specs, random_spec, random_expset_spec, desc_from_spec
+from ..rogen import core_specs, expset_specs, random_spec, random_pw_spec, random_expset_spec, desc_from_spec
 from ..smt import HarnessError, fval
 from ..harness import finding
 
@@ -48,6 +48,7 @@ def cases(tier, seed, rnd):
     n = 24 if tier == 'quick' else 600
     specs += [random_spec(rnd, i) for i in range(n)]
     specs += [random_expset_spec(rnd, i) for i in range(6 if tier == 'quick' else 120)]
+    specs += [random_pw_spec(seed, i) for i in range(8 if tier == 'quick' else 120)]
     return [dict(spec=s) for s in specs]
 
 
